@@ -28,6 +28,7 @@ RULE = ('seeded hit-time sequences (bursts, exact period boundaries, window edge
 ASSUMPTIONS = ['time is the agent\'s own reading of time.time_ns (virtual clock)',
                'under concurrency only the upper bounds are asserted (count <= fire_count, spacing >= period); '
                'must-collect is asserted single-threaded']
+RULE += '; free-running threads on an unlimited tracepoint (every hit is due); a hit whose condition holds arriving while a hit of another thread is parked inside the evaluation of a condition that then rejects it'
 REQUIRE = {'stress_hits_on_an_unlimited_tracepoint': 600, 'true_hits_while_a_false_condition_was_being_evaluated': 3, 'hits_checked': 5000, 'refused_by_count': 200, 'refused_by_period': 200, 'refused_by_window': 100,
            'boundary_hits': 50, 'gated_cases': 30, 'hostile_schedules': 30,
            'overlap_cases': 30, 'hits_while_collection_open': 30, 'interpose_points': 15,
